@@ -42,6 +42,10 @@ HFNS = ["HId", "HPush", "HPushOne", "HWrap", "HInc", "HSeven"]
 HELPER_KINDS = ("WithAlias", "WithTarget", "TransformAlias", "UpdateAlias", "ResetAlias",
                 "TransformTarget", "UpdateTarget", "ResetTarget")
 COPY_KINDS = ("DeepCopy",) + HELPER_KINDS
+# round G: top-level `o.update(**{n: v})` IS `with_<n>(v)` (copy) / `o.<n> = v` (in place): executed as
+# the top-level call, handed to the Coq oracle as XWithAlias / XWithTarget / WrAlias / WrTarget
+TOP_KINDS = ("TopUpdAlias", "TopUpdTarget")
+TOP_IN = {"UpdAliasIn": "WrAlias", "UpdTargetIn": "WrTarget"}
 
 
 # ------------------------------------------------------------------ trees <-> Python / Coq / JSON
@@ -289,6 +293,10 @@ class World:
             if k == "WrAlias":
                 v = self.build(sub[1]); self.note(v)
                 setattr(o, y, v); return ("ONone",)
+            if k in TOP_IN:
+                v = self.build(sub[1]); self.note(v)
+                r = o.update(_inplace=True, **{(y if k == "UpdAliasIn" else ATTR[path[0][1]]): v})
+                return ("ONone",) if r is o else ("OVal", ("s", -87))
             if k == "DelAlias":
                 delattr(o, y); return ("ONone",)
             if k == "RdClass":
@@ -311,12 +319,17 @@ class World:
                 else:
                     del parent[KEYS[last[1]]]
                 return ("ONone",)
-        if kind in COPY_KINDS:
+        if kind in COPY_KINDS or kind in TOP_KINDS:
             prior = set()
             for r in roots:
                 self.mutable_ids(r, prior)
             if kind == "DeepCopy":
                 n = copy.deepcopy(roots[op[1]])
+            elif kind in TOP_KINDS:
+                v = self.build(op[2]); self.note(v)
+                n = roots[op[1]].update(**{(y if kind == "TopUpdAlias" else ATTR[path[0][1]]): v})
+                if n is roots[op[1]]:
+                    return ("OVal", ("s", -88))
             else:
                 from spec_classes import MISSING
                 attr = y if kind.endswith("Alias") else ATTR[path[0][1]]
@@ -415,6 +428,8 @@ def c_cfg(cfg):
 def c_op(o):
     if o[0] == "WrAlias" or o[0] == "WrTarget":
         return f"{o[0]} {c_val(o[1])}"
+    if o[0] in TOP_IN:
+        return f"{TOP_IN[o[0]]} {c_val(o[1])}"
     return o[0]
 
 
@@ -423,6 +438,8 @@ def c_xop(o):
         return f"XOn {o[1]} ({c_op(o[2])})"
     if o[0] == "DeepCopy":
         return f"XDeepCopy {o[1]}"
+    if o[0] in TOP_KINDS:
+        return f"X{'WithAlias' if o[0] == 'TopUpdAlias' else 'WithTarget'} {o[1]} {c_val(o[2])}"
     if o[0].startswith("Reset"):
         return f"X{o[0]} {o[1]}"
     if o[0].startswith("Transform"):
@@ -1099,6 +1116,46 @@ def tl_from_json(r):
     return (r["host"], cfg, tree_from_json(r["init"]), [op(o) for o in r["ops"]])
 
 
+def topupdate_cases(rng, tier):
+    """round G, Coq-judged: top-level update(**{alias: v}) / update(**{target: v}), copy and in place,
+    on spec hosts (every second one a subclass inheriting the alias), surrounded by reads / writes /
+    deletes; the oracle reads them as with_<n>(v) / `o.<n> = v`."""
+    n = 1200 if tier == "quick" else 10000
+    shapes = [PATH_SHAPES[0], PATH_SHAPES[1], PATH_SHAPES[1], PATH_SHAPES[2], PATH_SHAPES[4], PATH_SHAPES[6]]
+    out = []
+    for ci in range(n):
+        path = rng.choice(shapes)
+        name = rng.choice([5, 6])
+        typed_alias = rng.random() < 0.3
+        host = {"spec": True, "int": sorted(INT_ATTRS + ([name] if typed_alias else []))}
+        sub_host(host, path, ci)
+        cfg = {"path": path, "pt": rng.random() < 0.4, "tr": rng.choice([None, None, "FInc", "FNeg"]),
+               "fb": rng.choice([None, None, ("i", 0), ("D", [(0, ("i", 1))])]),
+               "name": name, "bound": True, "dep": rng.random() < 0.3, "quotes": 0}
+        tgt_typed = slot_typed(host, cfg)
+        init = happy_tree(rng, path, present=rng.random() < 0.8)
+        if not cfg["pt"] and rng.random() < 0.25:
+            init = ("I", init[1] + [(-name - 1, rng.choice(SCALARS))])
+        one_attr = len(path) == 1
+        alias_mut = not (typed_alias or (cfg["pt"] and tgt_typed))
+        ops, nroots = [], 1
+        for _ in range(rng.randint(1, 4)):
+            i = rng.randrange(nroots)
+            r = rng.random()
+            on_target = one_attr and rng.random() < 0.3
+            v = rand_val(rng, mutable_ok=(not tgt_typed) if on_target else alias_mut)
+            if r < 0.3:
+                ops.append(("TopUpdTarget" if on_target else "TopUpdAlias", i, v))
+                nroots += 1
+            elif r < 0.55:
+                ops.append(("On", i, ("UpdTargetIn" if on_target else "UpdAliasIn", v)))
+            else:
+                ops.append(("On", i, rng.choice([("RdAlias",), ("RdTarget",), ("DelAlias",), ("DelTarget",),
+                                                  ("WrTarget", rand_val(rng, mutable_ok=not tgt_typed))])))
+        out.append((host, cfg, init, ops))
+    return out
+
+
 def generate(rng, tier):
     quick = tier == "quick"
     n = 10000 if quick else 100000
@@ -1275,7 +1332,9 @@ def main(tier, replay=None):
     cases = generate(chk.rng, tier)
     exh, exh_cfgs, exh_len = exhaustive_cases(chk.rng, tier)
     helpers = helper_cases(chk.rng, tier)
-    cases = exh + helpers + cases
+    tl = toplevel_cases(chk.rng, tier)          # round G probe (run below)
+    topupd = topupdate_cases(chk.rng, tier)     # round G, Coq-judged
+    cases = exh + helpers + cases + topupd
     # corpus of minimised past failures first
     import os
     cdir = os.path.join(os.path.dirname(os.path.dirname(os.path.abspath(__file__))), "corpus", "C18")
@@ -1288,7 +1347,6 @@ def main(tier, replay=None):
     st = Stats()
     bad, logs = evaluate(cases, stats=st)
     # round G: constructor keywords and top-level helpers (implementation-level probe)
-    tl = toplevel_cases(chk.rng, tier)
     tl_ops, tl_hist, tl_bad = run_toplevel(tl)
     tl_seen = set()
     for i, done, diff in tl_bad:
@@ -1348,7 +1406,8 @@ def main(tier, replay=None):
                       "spec subclass / sub-subclass inheriting the alias from a parent spec class"],
             "subclass_host_cases": len([c for c in cases if c[0].get("sub")]),
             "corpus_cases": len(corpus), "exhaustive_cases": len(exh), "helper_block_cases": len(helpers),
-            "random_cases": len(cases) - len(exh) - len(helpers) - len(corpus),
+            "random_cases": len(cases) - len(exh) - len(helpers) - len(corpus) - len(topupd),
+            "toplevel_update_block_cases": len(topupd),
         },
         "toplevel_probe": {"cases": len(tl), "operations": tl_ops, "op_histogram": tl_hist,
                            "disagreements": len(tl_bad),
